@@ -118,7 +118,7 @@ let show_outcome (o : outcome) : string =
    | ODone _ -> "ok"
    | OPanic (PDivide, _) -> "panic:divide"
    | OPanic (PIndex, _) -> "panic:index"
-   | OFault (f, _) -> "fault:" ^ fault_name f
+   | OFault (f, s) -> "fault:" ^ fault_name f ^ "@fn" ^ dec_of_z s.s_fn ^ "/pc" ^ dec_of_z s.s_pc ^ "/depth" ^ string_of_int (List.length s.s_calls)
    | OOutOfFuel _ -> "out-of-fuel")
 
 let nat_tr (i : int) : nat = let rec go i acc = if i <= 0 then acc else go (i - 1) (S acc) in go i O
@@ -209,6 +209,20 @@ let handle (f : string list) : string =
     let a = show_outcome (vm_exec (parse_program dump) (nat_tr (int_of_string fuel))) in
     let b = show_pres (run_prog (parse_prog ast) (nat_tr (int_of_string fuel))) in
     if a = b then "agree" else "differ:vm-model=" ^ a ^ ";minigo=" ^ b
+  | ["emit"; k; np; e] ->
+    let t = { a = Array.of_list (List.filter (fun x -> x <> "") (String.split_on_char ' ' e)); pos = 0 } in
+    let rec pe () : iexpr =
+      match next t with
+      | "c" -> IConst (next_z t)
+      | "v" -> IVar (next_z t)
+      | "b" -> let op = binop_of (next t) in let a = pe () in let b = pe () in IBin (op, a, b)
+      | x -> failwith ("iexpr token " ^ x) in
+    let ex = pe () in
+    (match compile_func (z_of_dec k) (z_of_dec np) ex with
+     | None -> "none"
+     | Some (code, pool) ->
+       "ok:" ^ String.concat ";" (List.map (fun i -> String.concat " " (List.map dec_of_z [i.i_op; i.i_a; i.i_b; i.i_c])) code)
+       ^ "|" ^ String.concat "," (List.map dec_of_z pool))
   | _ -> "driver-error:unknown-command"
 
 let () = main_loop handle
